@@ -138,20 +138,69 @@ def run(ctx, rep):
                     if not ok:
                         rep.finding(R2, f'C19.R2/{cls}/{qn}/{"|".join(lit)}', m.loc(mod, n), qn, f'looks up strings[{", ".join(lit)}] without a KeyError guard and the key is not in every table')
     R3 = rep.rule('C19.R3', 'builder covers the node kinds; registered writers are concrete; plain-text template renders every node part')
+    # node builders folded over one mock node of every kind: what node_props / sentence emit for it
+    from ..closure import node_classes
+    from ..minieval import Interp as _I2, Obj as _O2, Raised as _Rd
+    NC = node_classes(m)
+    for extra_kind in ('EllipsisNode',):
+        NC.setdefault(extra_kind, type(extra_kind, (NC['Node'],), {}))
+    keyobj = _O2('Key', designation='designated', designated='designated', world='world', world1='world1', world2='world2', sentence='sentence', flag='flag')
+    proofns = _O2('proof', **NC)
+    proofns.Node = NC['Node']
+    NC['Node'].Key = keyobj
+
+    class Builder:
+        def __init__(s_, name):
+            s_.name = name
+
+        def for_object(s_, obj):
+            return (s_.name, 'for_object', obj)
+
+        def __call__(s_, *a, **k):
+            return (s_.name, 'call', a, tuple(sorted(k)))
+    names = tuple(st.name for st in m.trees[NODES].body if isinstance(st, ast.ClassDef))      # every element class of the module is a key of `types`
+    itb = _I2(dict({n_: n_ for n_ in names}, proof=proofns, isinstance=isinstance, getattr=getattr), where='proof/writers/doctree/nodes.py builders')
+    clsms = {what_: _O2('builder-class', __srcclass__=(m, ClassRef(NODES, what_)), types={n_: Builder(n_) for n_ in names}) for what_ in ('node_props', 'sentence')}
+
+    def mk(kind, **props):
+        nd = NC[kind]()
+        nd.update(props)
+        return nd
     gc = m.func(NODES, 'node_props.get_obj_children')
-    txt = astq.u(gc)
-    for kind in ('proof.SentenceNode', 'proof.AccessNode', 'proof.EllipsisNode', 'proof.FlagNode'):
-        ok = f'isinstance(obj, {kind})' in txt
-        rep.instance(R3, ok=ok, nontrivial=('node_props', kind))
-        if not ok:
-            rep.finding(R3, f'C19.R3/node_props/{kind}', m.loc(NODES, gc), 'node_props.get_obj_children', f'nodes of kind {kind} are no longer rendered')
     sc = m.func(NODES, 'sentence.get_obj_children')
-    txt = astq.u(sc)
-    ok = 'isinstance(obj, proof.DesignationNode)' in txt and 'types[designation].for_object(obj[proof.Node.Key.designation])' in txt and \
-        'isinstance(obj, proof.WorldNode)' in txt and 'types[world].for_object(obj[proof.Node.Key.world])' in txt
-    rep.instance(R3, ok=ok, nontrivial='sentence-children')
-    if not ok:
-        rep.finding(R3, 'C19.R3/sentence.get_obj_children', m.loc(NODES, sc), 'sentence.get_obj_children', 'designation / world of a sentence node are no longer rendered')
+    rep.consult(m.loc(NODES, gc) + ' node_props.get_obj_children', m.loc(NODES, sc) + ' sentence.get_obj_children')
+    cases = [
+        ('SentenceNode', dict(sentence='S'), gc, lambda out, nd: ('sentence', 'for_object', nd) in out),
+        ('SentenceDesignationWorldNode', dict(sentence='S', designated=False, world=2), gc, lambda out, nd: ('sentence', 'for_object', nd) in out),
+        ('AccessNode', dict(world1=1, world2=3), gc, lambda out, nd: [x for x in out if x[0] in ('world', 'access')][:3] ==
+            [('world', 'for_object', 1), ('access', 'call', (), ()), ('world', 'for_object', 3)]),
+        ('EllipsisNode', dict(ellipsis=True), gc, lambda out, nd: any(x[0] == 'ellipsis' for x in out)),
+        ('ClosureNode', dict(flag='closure', is_flag=True), gc, lambda out, nd: ('flag', 'for_object', nd) in out),
+        ('QuitFlagNode', dict(flag='quit', is_flag=True), gc, lambda out, nd: ('flag', 'for_object', nd) in out),
+        ('SentenceNode', dict(sentence='S'), sc, lambda out, nd: not any(x[0] in ('designation', 'world') for x in out)),
+        ('SentenceDesignationNode', dict(sentence='S', designated=True), sc, lambda out, nd: ('designation', 'for_object', True) in out and not any(x[0] == 'world' for x in out)),
+        ('SentenceDesignationNode', dict(sentence='S', designated=False), sc, lambda out, nd: ('designation', 'for_object', False) in out),
+        ('SentenceWorldNode', dict(sentence='S', world=0), sc, lambda out, nd: ('world', 'for_object', 0) in out and not any(x[0] == 'designation' for x in out)),
+        ('SentenceDesignationWorldNode', dict(sentence='S', designated=False, world=2), sc,
+         lambda out, nd: ('designation', 'for_object', False) in out and ('world', 'for_object', 2) in out),
+    ]
+    for kind, props, fn_, good in cases:
+        if kind not in NC:
+            continue
+        nd = mk(kind, **props)
+        try:
+            out = itb.generate(fn_, [clsms['node_props' if fn_ is gc else 'sentence'], nd])
+            err = None
+        except _Rd as e:
+            out, err = [], e.text
+        except (TypeError, KeyError, AttributeError) as e:
+            out, err = [], f'{type(e).__name__}: {e}'
+        ok = err is None and good(out, nd)
+        what = 'node_props' if fn_ is gc else 'sentence'
+        rep.instance(R3, ok=ok, nontrivial=(what, kind, tuple(sorted(props))))
+        if not ok:
+            rep.finding(R3, f'C19.R3/{what}/{kind}/{"+".join(sorted(props))}', m.loc(NODES, fn_), f'{what}.get_obj_children',
+                        f'for a {kind} {props} the builder emits {[x[:2] for x in out]}{" / raises " + err if err else ""}: a part of the node is not rendered')
     for mod, wcls, fmt in (('pytableaux.proof.writers.doctree.html', 'HtmlTabWriter', 'html'), ('pytableaux.proof.writers.doctree.latex', 'LatexTabWriter', 'latex'),
                            ('pytableaux.proof.writers.doctree.text', 'TextTabWriter', 'text'), ('pytableaux.proof.writers.jinja', 'TextTabWriter', 'text')):
         ref = ClassRef(mod, wcls)
